@@ -6,6 +6,7 @@ package main
 
 import (
 	"fmt"
+	"path"
 	"strings"
 
 	"verif/internal/gen/pptxw"
@@ -20,6 +21,8 @@ type xsheet struct {
 	Head    string // A1 (shared string when the table exists, else inline)
 	Body    string // A2 (always an inline string)
 	SST     int    // index of Head in the shared string table
+	Blank   bool   // empty <sheetData/>
+	Comment string // optional companion part: xl/comments<SheetID>.xml + the sheet's .rels part
 	Absent  bool   // declared + related, file not written
 	Linked  bool   // decoys: has a <Relationship> although no <sheet> refers to it
 }
@@ -51,7 +54,12 @@ func (b *xbook) target(s xsheet) string {
 func (b *xbook) sheetXML(s xsheet) string {
 	var w strings.Builder
 	w.WriteString(xhdr)
-	w.WriteString(`<worksheet xmlns="http://schemas.openxmlformats.org/spreadsheetml/2006/main" xmlns:r="http://schemas.openxmlformats.org/officeDocument/2006/relationships"><dimension ref="A1:A2"/><sheetData>`)
+	w.WriteString(`<worksheet xmlns="http://schemas.openxmlformats.org/spreadsheetml/2006/main" xmlns:r="http://schemas.openxmlformats.org/officeDocument/2006/relationships">`)
+	if s.Blank {
+		w.WriteString(`<dimension ref="A1"/><sheetData/></worksheet>`)
+		return w.String()
+	}
+	w.WriteString(`<dimension ref="A1:A2"/><sheetData>`)
 	if b.NoSST {
 		fmt.Fprintf(&w, `<row r="1"><c r="A1" t="inlineStr"><is><t>%s</t></is></c></row>`, pptxw.Esc(s.Head))
 	} else {
@@ -115,6 +123,11 @@ func (b *xbook) members() []zipw.Member {
 	if !b.NoDocProps {
 		ct.WriteString(`<Override PartName="/docProps/core.xml" ContentType="application/vnd.openxmlformats-package.core-properties+xml"/><Override PartName="/docProps/app.xml" ContentType="application/vnd.openxmlformats-officedocument.extended-properties+xml"/>`)
 	}
+	for _, s := range all {
+		if s.Comment != "" && !s.Absent {
+			fmt.Fprintf(&ct, `<Override PartName="/xl/comments%d.xml" ContentType="application/vnd.openxmlformats-officedocument.spreadsheetml.comments+xml"/>`, s.SheetID)
+		}
+	}
 	ct.WriteString(`</Types>`)
 
 	var root strings.Builder
@@ -162,6 +175,12 @@ func (b *xbook) members() []zipw.Member {
 			continue
 		}
 		parts = append(parts, zipw.M(all[i].Path, b.sheetXML(all[i])))
+		if c := all[i]; c.Comment != "" {
+			cp := fmt.Sprintf("xl/comments%d.xml", c.SheetID)
+			parts = append(parts,
+				zipw.M(path.Join(path.Dir(c.Path), "_rels", path.Base(c.Path)+".rels"), xhdr+fmt.Sprintf(`<Relationships xmlns="http://schemas.openxmlformats.org/package/2006/relationships"><Relationship Id="rId1" Type="%scomments" Target="%s"/></Relationships>`, xrelT, pptxw.Esc(pptxw.RelTo(path.Dir(c.Path), cp)))),
+				zipw.M(cp, xhdr+fmt.Sprintf(`<comments xmlns="http://schemas.openxmlformats.org/spreadsheetml/2006/main"><authors><author>verif</author></authors><commentList><comment ref="A1" authorId="0"><text><t>%s</t></text></comment></commentList></comments>`, pptxw.Esc(c.Comment))))
+		}
 	}
 	if b.PartsFirst {
 		return append(parts, infra...)
